@@ -1,3 +1,128 @@
-import Holpy.Common.Sexp
-/- stub: replaced when the C11 model is built -/
-def main : IO Unit := Holpy.lineLoop (fun _ => "bad-op")
+import Holpy.Kernel.Wire
+import Holpy.Kernel.Oracle
+import Holpy.C11.Model
+/-
+Line protocol of the C11 model:
+  (defok NAME Ty Term)                               -> (T|F REASON)
+  (defcex NAME Ty (Term*) SPEC NSAMPLES SEED MAXCOST) -> (ok N EXH) | (cex ((kind name Ty val)*)) | (skip WHY)
+      SPEC = (((name size)*) ((name size)*) ((name size)*) default)   sizes of stvars / tvars / type constructors
+      Is there a valuation of the OLD signature (every constant except `NAME :: Ty`) in the model
+      SPEC under which NO value of the new constant makes all the listed instances of the defining
+      equation true for all values of the (schematic) variables?  The library constants
+      true/false/neg/conj/disj/exists/IF get their standard meaning; the remaining constants are
+      enumerated (or sampled NSAMPLES times when there are too many valuations).
+  (apart Ty Ty) -> T|F
+The search is an oracle that *uses* `sem`; it is not part of any theorem.
+-/
+open Holpy Holpy.Wire
+
+namespace Holpy.C11.Driver
+
+def sizesOf (l : List Sexp) : Option (List (String × Nat)) :=
+  l.mapM fun
+    | .list [.atom n, s] => do some (n, ← s.toNat?)
+    | _ => none
+
+def specOf : Sexp → Option Oracle.Spec
+  | .list [.list a, .list b, .list c, d] => do
+    some ⟨← sizesOf a, ← sizesOf b, ← sizesOf c, ← d.toNat?⟩
+  | _ => none
+
+/-- standard meaning of the logical constants `logic_base` defines on top of the kernel's three -/
+def stdVal (M : Model) (n : String) (T : Ty) : Option Nat :=
+  match n, T with
+  | "true", .con "bool" [] => some 1
+  | "false", .con "bool" [] => some 0
+  | "neg", .con "fun" [.con "bool" [], .con "bool" []] => some (lamCode (fun x => 1 - x) 2 2)
+  | "conj", .con "fun" [.con "bool" [], .con "fun" [.con "bool" [], .con "bool" []]] =>
+    some (lamCode (fun x => lamCode (fun y => x * y) 2 2) 2 4)
+  | "disj", .con "fun" [.con "bool" [], .con "fun" [.con "bool" [], .con "bool" []]] =>
+    some (lamCode (fun x => lamCode (fun y => if x + y > 0 then 1 else 0) 2 2) 2 4)
+  | "exists", .con "fun" [.con "fun" [a, .con "bool" []], .con "bool" []] =>
+    some (lamCode (fun f => if f = 0 then 0 else 1) (2 ^ M.size a) 2)
+  | "IF", .con "fun" [.con "bool" [], .con "fun" [a, .con "fun" [a', a'']]] =>
+    if a = a' ∧ a = a'' then
+      let s := M.size a
+      some (lamCode (fun b => lamCode (fun x => lamCode (fun y => if b = 1 then x else y) s s) s (s ^ s)) 2 ((s ^ s) ^ s))
+    else none
+  | _, _ => none
+
+def prodSizes (l : List (Oracle.Atom × Nat)) : Nat := l.foldl (fun acc p => acc * p.2) 1
+
+/-- all instances hold under the valuation `asg` for every valuation of the variable atoms -/
+def holdsForAllVars (M : Model) (props : List Term) (asg : List (Oracle.Atom × Nat))
+    (vars : List (Oracle.Atom × Nat)) (totalV : Nat) : Bool :=
+  (List.range totalV).all fun i =>
+    let ρ := Oracle.valuationOf (Oracle.decode vars i ++ asg)
+    props.all fun p => sem M ρ [] [] p == 1
+
+inductive Verdict where
+  | ok (tried : Nat) (exhaustive : Bool)
+  | cex (asg : List (Oracle.Atom × Nat))
+  | skip (why : String)
+
+def search (M : Model) (name : String) (T : Ty) (props : List Term) (nsamples seed maxCost : Nat) : Verdict :=
+  let atoms := props.foldl (fun acc t => Oracle.atomsAcc t acc) []
+  let new : Oracle.Atom := (2, name, T)
+  let sized := atoms.map (fun a => (a, M.size a.2.2))
+  let cost := props.foldl (fun c t => Oracle.costAcc M t c) 0
+  let sizeT := M.size T
+  if cost > maxCost then .skip s!"cost {cost}"
+  else if sizeT > 4096 then .skip "constant size"
+  else
+    let vars := sized.filter (fun p => p.1.1 != 2)
+    let consts := sized.filter (fun p => p.1.1 == 2 && p.1 != new)
+    let fixed := consts.filterMap (fun p => (stdVal M p.1.2.1 p.1.2.2).map (fun v => (p.1, v)))
+    let free := consts.filter (fun p => (stdVal M p.1.2.1 p.1.2.2).isNone)
+    let totalV := prodSizes vars
+    if totalV > 4096 then .skip "variables"
+    else
+      let good (asg : List (Oracle.Atom × Nat)) : Bool :=
+        (List.range sizeT).any fun c => holdsForAllVars M props ((new, c) :: asg ++ fixed) vars totalV
+      let total := prodSizes free
+      if total ≤ nsamples then
+        let rec go (i fuel : Nat) : Verdict :=
+          match fuel with
+          | 0 => .ok total true
+          | fuel + 1 =>
+            if i ≥ total then .ok total true
+            else
+              let asg := Oracle.decode free i
+              if good asg then go (i + 1) fuel else .cex (asg ++ fixed)
+        go 0 (total + 1)
+      else
+        let rec gos (k st : Nat) : Verdict :=
+          match k with
+          | 0 => .ok nsamples false
+          | k + 1 =>
+            let (asg, st') := Oracle.sample free st
+            if good asg then gos k st' else .cex (asg ++ fixed)
+        -- the all-zero valuation first
+        let zero := free.map (fun p => (p.1, 0))
+        if good zero then gos nsamples (seed + 1) else .cex (zero ++ fixed)
+
+def handle (line : String) : String :=
+  match Sexp.parse line with
+  | some (.list [.atom "defok", .atom name, ty, t]) =>
+    match tyOf ty, termOf t with
+    | some T, some p =>
+      toString (Sexp.list [Sexp.ofBool (defOK name T p), .atom (defReason name T p)])
+    | _, _ => "bad-op"
+  | some (.list [.atom "apart", a, b]) =>
+    match tyOf a, tyOf b with
+    | some x, some y => toString (Sexp.ofBool (apart x y))
+    | _, _ => "bad-op"
+  | some (.list [.atom "defcex", .atom name, ty, .list ps, spec, ns, seed, maxCost]) =>
+    match tyOf ty, ps.mapM termOf, specOf spec, ns.toNat?, seed.toNat?, maxCost.toNat? with
+    | some T, some props, some s, some n, some sd, some mc =>
+      match search s.toModel name T props n sd mc with
+      | .ok k ex => toString (Sexp.list [.atom "ok", Sexp.ofNat k, Sexp.ofBool ex])
+      | .cex asg => toString (Sexp.list [.atom "cex", .list (asg.map fun (a, v) =>
+          .list [Sexp.ofNat a.1, .atom a.2.1, tyTo a.2.2, Sexp.ofNat v])])
+      | .skip w => toString (Sexp.list [.atom "skip", .atom (w.replace " " "_")])
+    | _, _, _, _, _, _ => "bad-op"
+  | _ => "bad-op"
+
+end Holpy.C11.Driver
+
+def main : IO Unit := Holpy.lineLoop Holpy.C11.Driver.handle
